@@ -209,6 +209,43 @@ def in_domain_finding(case, step):
         return True
 
 
+def _codes(step):
+    out = []
+    for m in step.msgs:
+        w = m.data.split(b" ")
+        out.append((w[1] if m.data[:1] == b":" and len(w) > 1 else w[0], tuple(sorted(m.rcpt))))
+    return (step.outcome.split("=")[0], out)
+
+
+def time_shift_search(cs, delta=10 * 365 * 86400 * 10 ** 9):
+    """run each case as is and with all entry timestamps (and expiry 'now' values) moved by +delta (past today's wall
+    clock); returns a replay dict for the first case whose sequences of (command/numeric, recipients) differ."""
+    # captcha tokens carry absolute times: drop the lines that present one (what remains is still a history)
+    cs = [dict(c, oracles=[], entries=[e for e in c["entries"] if b"captcha=" not in e.get("data", b"").lower()]) for c in cs]
+    shifted = []
+    for c in cs:
+        c2 = dict(c, entries=[dict(e) for e in c["entries"]])
+        for e in c2["entries"]:
+            if "ts" in e:
+                e["ts"] += delta
+            if "now" in e:
+                e["now"] += delta
+        shifted.append(c2)
+    tr, _ = irclib.run_cases(cs + shifted, opts="-", tag="tshift")
+    n = len(cs)
+    for i in range(n):
+        a, b = tr[i], tr[n + i]
+        if not (a.ok and b.ok):
+            continue
+        for j, (x, y) in enumerate(zip(a.steps, b.steps)):
+            if _codes(x) != _codes(y):
+                return {"what": "the same history with every timestamp moved by +10 years answers entry %d differently: %s vs %s — "
+                                "the result depends on something outside the entries (wall-clock time)" % (j, _codes(x), _codes(y)),
+                        "step": j, "cases": [irclib.case_line(cs[i]), irclib.case_line(shifted[i])],
+                        "how_to_replay": "bin/check C01 --replay <this file> (both cases must give the same commands and recipients)"}
+    return None
+
+
 def run_irc_check(ck, prop, prefix, replay, n_quick=120, n_thorough=2500, kinds=None, extra=None):
     ck.cov["trusted_base"] += IRC_TRUSTED
     ck.assumptions += IRC_ASSUMPTIONS
@@ -339,6 +376,13 @@ def run_irc_check(ck, prop, prefix, replay, n_quick=120, n_thorough=2500, kinds=
                            "occurrences": len(mine[sig]),
                            "how_to_replay": "bin/check %s --replay <this file>" % prop}, concrete=True)
     ck.notes["findings_on_nonconforming_services_lines_ignored"] = nonconf
+    if mism and not [x for x in ck.violations] and prop == "C01":
+        # search for a concrete failing input: the same history with every timestamp moved by the same amount must
+        # produce the same replies (all uses of time in the state machine are differences of entry timestamps); a
+        # difference means something outside the entries (the wall clock) is consulted
+        hit = time_shift_search([cases[i] for i in sorted({x[0] for x in mism})[:8]])
+        if hit:
+            ck.violation("c01:time-shift", hit, concrete=True)
     if mism and not [x for x in ck.violations]:
         i, j, g, m = mism[0]
         ck.violation("correspondence:irc", {"what": "the Coq model and the implementation disagree on the projection for %s; no monitor of the property flagged an input" % prop,
